@@ -12,7 +12,7 @@ from petl.compat import pickle, next, text_type
 
 
 import petl.config as config
-from petl.comparison import comparable_itemgetter
+from petl.comparison import comparable_itemgetter, Comparable
 from petl.util.base import Table, asindices
 
 
@@ -577,20 +577,21 @@ def issorted(table, key=None, reverse=False, strict=False):
     except StopIteration:
         flds = []
     if key is None:
-        prev = next(it)
-        for curr in it:
-            if not op(curr, prev):
-                return False
-            prev = curr
+        # lexical order over all fields, same key as sort(table, key=None)
+        indices = range(len(flds))
     else:
-        getkey = comparable_itemgetter(*asindices(flds, key))
-        prev = next(it)
-        prevkey = getkey(prev)
-        for curr in it:
-            currkey = getkey(curr)
-            if not op(currkey, prevkey):
-                return False
-            prevkey = currkey
+        indices = asindices(flds, key)
+    if len(indices) > 0:
+        getkey = comparable_itemgetter(*indices)
+    else:
+        getkey = Comparable  # table without fields
+    prev = next(it)
+    prevkey = getkey(prev)
+    for curr in it:
+        currkey = getkey(curr)
+        if not op(currkey, prevkey):
+            return False
+        prevkey = currkey
     return True
 
 
